@@ -291,6 +291,21 @@ class Parser:
         t = self.peek()
         if self.at('let') or self.at('var') or self.at('const'):
             self.i += 1
+            if self.at('['):                       # const [a, b] = e;
+                self.i += 1
+                names = []
+                while not self.at(']'):
+                    names.append(self.name())
+                    if not self.at(']'):
+                        self.eat(',')
+                self.eat(']')
+                self.eat('=')
+                e = self.expr()
+                self.eat(';')
+                if len(names) < 2 or len(set(names)) != len(names):
+                    self.err('destructuring outside the subset', t)
+                tgt = ast.Tuple(elts=[ast.Name(id=n, ctx=ast.Store()) for n in names], ctx=ast.Store())
+                return [self.loc(ast.Assign(targets=[tgt], value=e), t)]
             nm = self.name()
             self.eat('=')
             e = self.expr()
@@ -363,7 +378,7 @@ class Parser:
             self.i += 1
             v = self.expr()
             self.eat(';')
-            if not isinstance(e, (ast.Name, ast.Subscript)):
+            if not isinstance(e, (ast.Name, ast.Subscript, ast.Attribute)):
                 self.err('assignment target outside the subset', t)
             e.ctx = ast.Store()
             if op == '=':
